@@ -214,6 +214,9 @@ func (a *Analyzer) onApplied(n *nodeState, r *ev.Rec) {
 		}
 	} else if ci.term != e.Term || ci.hash != e.Hash {
 		a.fsmFind(n, "applied-entry-differs-from-committed", "", r.Q, "%s applies (%d,t%d,%x), committed is (t%d,%x)", n.key, e.Index, e.Term, e.Hash, ci.term, ci.hash)
+		if e.Typ == ev.TypUpdate {
+			a.find("C07", "uncommitted-update-exposed", "", r.Q, "%s applies update entry (%d,t%d) which is not the committed entry at that index (t%d): reads expose an update that was never committed", n.key, e.Index, e.Term, ci.term)
+		}
 	}
 	if e.Typ == ev.TypUpdate {
 		if !n.hasFsmVal || ev.Hash([]byte(n.lastFsmVal)) != e.Hash {
